@@ -160,7 +160,11 @@ class IDStat:
         The `name` attribute of the returned series is set using the `name` property.
 
         """
-        return pd.Series(self.asdict(), name=self.name)
+        vals = self.asdict()
+        # an explicit index keeps IDs that are tuples as they are (pandas would
+        # turn them into a MultiIndex, padding tuples of different lengths)
+        index = pd.Index(list(vals), tupleize_cols=False)
+        return pd.Series(list(vals.values()), index=index, name=self.name)
 
     def ashist(self, bins=10, bin_edges=False, density=False, log_binning=False):
         """Return the distribution of a numpy array.
